@@ -107,7 +107,9 @@ EXTRA_INVALID = [
     (["extra", "Server", "x86_64", "/abs/GPL", 1, {"sha256": "a" * 64}], "absolute-path"),
     (["extra", "Server", "x86_64", "Server/x86_64/os/GPL", 1, [["sha256", "a" * 64]]], "non-dict-checksums"),
 ]
-BASE_PATHS = ["Server/x86_64/os", "Server/x86_64/os/", "Server/x86_64/os//", "Other/tree", "Server/x86", "", "/Server/x86_64/os", "/"]
+BASE_PATHS = ["Server/x86_64/os", "Server/x86_64/os/", "Server/x86_64/os//", "Other/tree", "Server/x86", "", "/Server/x86_64/os", "/",
+              # a base that IS a stored path, one that continues below a stored path, one of a single component
+              "Server/x86_64/os/GPL", "Server/x86_64/os/GPL/more", "Server", "Server/x86_64/os/GP"]
 
 BUILDERS = {
     "rpms": {"valid": rpm_valid_ops, "invalid": RPM_INVALID, "model": M.rpms_add, "attr": "rpms",
@@ -163,6 +165,12 @@ def run_history(builder, hist, cycle=False):
                 return state2, ["step %d %s: raised %s, expected ValueError/TypeError (%s)" % (n, op, got, reason)], reasons
             if mapping != before:
                 return state2, ["step %d %s: refused call (%s) changed the manifest: %s" % (n, op, reason, "; ".join(diff(mapping, before)))], reasons
+            # the very same call again, right away: a refusal must not depend on the call having been seen before
+            r2 = call(obj.add, *args)
+            if r2[0] == "ok" or r2[1] not in want or getattr(obj, b["attr"]) != before:
+                return state2, ["step %d %s: refused (%s), but the same call repeated at once %s" % (
+                    n, op, reason, "is accepted" if r2[0] == "ok" else
+                    "raises %s" % r2[1] if r2[1] not in want else "changes the manifest")], reasons
         if mapping != state2:
             return state2, ["step %d %s: manifest differs from the reference layout: %s" % (n, op, "; ".join(diff(mapping, state2)))], reasons
         state = state2
